@@ -483,6 +483,11 @@ func inputKeyedComposableRunnable(key string, r *composableRunnable) *composable
 		if !ok {
 			return nil, fmt.Errorf("cannot find input key: %s", key)
 		}
+		// the value under the key is narrowed to the node's input type: checked like any interface-typed connection
+		// (stream mode does the same in inputStreamFilter)
+		if v, err = r.genericHelper.inputConverter.invoke(v); err != nil {
+			return nil, fmt.Errorf("input key[%s]: %w", key, err)
+		}
 		out, err := i(ctx, v, opts...)
 		if err != nil {
 			return nil, err
